@@ -53,9 +53,9 @@ func (fg *FnGen) step(fr *Frame, b *ssa.BasicBlock, ins ssa.Instruction, st *Sta
 		ref := fg.freshConst(fr.prefix+"alloc_"+x.Name(), SInt)
 		fg.assume(Gt(ref, fg.refLimit()))
 		for _, a := range fg.allocs {
-			fg.assume(Neq(ref, a))
+			fg.assume(Gt(ref, a))
 		}
-		fg.allocs = append(fg.allocs, ref)
+		fg.allocs = []*Term{ref}
 		fr.vals[x] = ref
 		elem := x.Type().Underlying().(*types.Pointer).Elem()
 		fg.storeValue(st, ref, elem, ti.zeroOf(elem))
@@ -116,6 +116,7 @@ func (fg *FnGen) step(fr *Frame, b *ssa.BasicBlock, ins ssa.Instruction, st *Sta
 		fr.addrs[x] = &Addr{Kind: "field", Base: base, Var: name, Sort: elemSort(srt), GoTyp: ft}
 		// pointer value: for embedded structs the sub-object reference, else an opaque address
 		fr.vals[x] = App("fld:"+name, SInt, base)
+		fg.assumeIf(reach, Gt(fr.vals[x], IntLit(0)))
 		return st
 	case *ssa.IndexAddr:
 		idx := fg.val(fr, x.Index)
@@ -170,9 +171,9 @@ func (fg *FnGen) step(fr *Frame, b *ssa.BasicBlock, ins ssa.Instruction, st *Sta
 		base := fg.freshConst(fr.prefix+"mk_"+x.Name(), SInt)
 		fg.assume(Gt(base, fg.refLimit()))
 		for _, a := range fg.allocs {
-			fg.assume(Neq(base, a))
+			fg.assume(Gt(base, a))
 		}
-		fg.allocs = append(fg.allocs, base)
+		fg.allocs = []*Term{base}
 		sl := x.Type().Underlying().(*types.Slice)
 		name, srt, isB := fg.memVar(sl.Elem())
 		mem := fg.lookup(st, name, srt)
@@ -195,9 +196,9 @@ func (fg *FnGen) step(fr *Frame, b *ssa.BasicBlock, ins ssa.Instruction, st *Sta
 		ref := fg.freshConst(fr.prefix+"map_"+x.Name(), SInt)
 		fg.assume(Gt(ref, fg.refLimit()))
 		for _, a := range fg.allocs {
-			fg.assume(Neq(ref, a))
+			fg.assume(Gt(ref, a))
 		}
-		fg.allocs = append(fg.allocs, ref)
+		fg.allocs = []*Term{ref}
 		fr.vals[x] = ref
 		fg.mapInit(x.Type(), ref, st)
 		return st
@@ -745,9 +746,9 @@ func (fg *FnGen) sliceOp(fr *Frame, x *ssa.Slice, st *State, reach *Term) *State
 		base := fg.freshConst(fr.prefix+"arrslice_"+x.Name(), SInt)
 		fg.assume(Gt(base, fg.refLimit()))
 		for _, a := range fg.allocs {
-			fg.assume(Neq(base, a))
+			fg.assume(Gt(base, a))
 		}
-		fg.allocs = append(fg.allocs, base)
+		fg.allocs = []*Term{base}
 		if arr != nil {
 			// snapshot of the array content at slicing time (the varargs idiom: stores, then slice, then call)
 			mn, ms, isB := fg.memVar(arr.Elem())
@@ -808,9 +809,9 @@ func (fg *FnGen) convert(fr *Frame, x *ssa.Convert, st *State, reach *Term) *Ter
 		base := fg.freshConst(fr.prefix+"conv_"+x.Name(), SInt)
 		fg.assume(Gt(base, fg.refLimit()))
 		for _, a := range fg.allocs {
-			fg.assume(Neq(base, a))
+			fg.assume(Gt(base, a))
 		}
-		fg.allocs = append(fg.allocs, base)
+		fg.allocs = []*Term{base}
 		hs := ArraySort(SInt, SString)
 		fg.set(st, "MemB", hs, Store(fg.lookup(st, "MemB", hs), base, v))
 		return MkSlice(base, IntLit(0), StrLen(v), StrLen(v))
